@@ -215,7 +215,7 @@ def install(mon, reach):
     from orquestra.quantum.distributions import jensen_shannon_divergence as JS
     from orquestra.quantum.distributions import mmd as MMD
 
-    reach.watch(M.MeasurementOutcomeDistribution.__init__, "MOD.__init__")
+    reach.watch(getattr(M.MeasurementOutcomeDistribution, "__init__", None), "MOD.__init__")
     reach.watch(M.MeasurementOutcomeDistribution.subdistribution, "MOD.subdistribution")
     reach.watch(M.normalize_measurement_outcome_distribution, "normalize")
     reach.watch(M.preprocess_distibution_dict, "preprocess")
